@@ -156,6 +156,7 @@ func runDyn(o *Opts) *Summary {
 	rejoins := 0
 	sigInj := map[string]int{}
 	ffJoins := 0
+	apiReads := 0
 	for t := 0; t < o.Traces; t++ {
 		n0 := o.N
 		if n0 == 0 {
@@ -315,6 +316,14 @@ func runDyn(o *Opts) *Summary {
 				vn.Monologue(bab[0])
 			}
 			ops = vn.poll(ops)
+			// somebody reads a node's API now and then (validator sets of rounds the
+			// node has not reached yet included)
+			if w.rng.Intn(6) == 0 {
+				if rd := active[w.rng.Intn(len(active))]; rd.State() == "Babbling" || rd.State() == "Suspended" {
+					vn.apiRead(rd)
+					apiReads++
+				}
+			}
 			// joiners with fast-sync enabled are CatchingUp once accepted: they reset
 			// from their peer's anchor (the join's own set is still pending then)
 			for _, n := range active {
@@ -572,6 +581,7 @@ func runDyn(o *Opts) *Summary {
 	s.Extra["leaves"] = leaves
 	s.Extra["refused_by_app"] = refused
 	s.Extra["valid_adopted"] = ffJoins
+	s.Extra["api_reads"] = apiReads
 	s.Extra["adversarial_signature_events"] = sigInj
 	s.Traces = o.Traces
 	s.Lines = w.lines
